@@ -11,6 +11,7 @@
      deflate  : ZlibEncoder at Compression::best.
    Theorems state the laws they need as hypotheses; the runner instantiates them from the case. *)
 From LV Require Import Base.Bytes Model.Obj Gen.Filters Model.A85 Model.Png.
+From LV Require Model.AsciiHex.
 
 Record stream := { s_dict : dict; s_content : bytes }.
 
@@ -81,6 +82,7 @@ Section Oracles.
     if bytes_eqb filter F_FLATE then decompress_zlib input params
     else if bytes_eqb filter F_LZW then decompress_lzw input params
     else if bytes_eqb filter F_A85 then A85.decode input
+    else if AHX_ENABLED && bytes_eqb filter F_AHX then AsciiHex.decode input    (* since the repair of C02-asciihex *)
     else Err EUnimpl.
 
   (* the loop of decompressed_content: [output] starts empty, so an empty filter list yields [] *)
